@@ -36,6 +36,11 @@ def _ref_probs(logits, mask):
     return out / out.sum()
 
 
+def _rtol(logits):
+    """float32 evaluation of log-softmax loses about eps32 * max|logit| in the log-probability."""
+    return 2e-5 + 6 * 1.2e-7 * float(np.max(np.abs(np.asarray(logits, np.float64))))
+
+
 def _ref_masked_softmax(logits, mask):
     lg = np.where(np.asarray(mask, bool), np.asarray(logits, np.float64), -np.inf)
     return special.softmax(lg)
@@ -50,13 +55,13 @@ def oracle_categorical(ctx: Ctx, case):
     tags = {"dist": "Categorical"}
     probs = np.asarray(d.probs, np.float64)
     ctx.check(bool(np.all(probs[~mask] == 0)), "C16/masked-action-has-positive-probability", tags=tags, probs=probs, mask=mask)
-    ctx.close(probs, ref, "C16/masked-probabilities-not-renormalised-proportionally", tags=tags, rtol=2e-5, atol=1e-7)
+    ctx.close(probs, ref, "C16/masked-probabilities-not-renormalised-proportionally", tags=tags, rtol=_rtol(logits), atol=1e-7)
     for i in range(n):
         lp = float(d.log_prob(jnp.asarray(i)))
         if not mask[i]:
             ctx.check(lp == -np.inf, "C16/masked-action-log-prob-not-minus-inf", tags=tags, action=i, log_prob=lp)
         else:
-            ctx.close(lp, np.log(ref[i]), "C16/masked-log-prob", tags=tags, rtol=2e-5, atol=2e-6)
+            ctx.close(lp, np.log(ref[i]), "C16/masked-log-prob", tags=tags, rtol=2e-5, atol=2e-6 + _rtol(logits))
     mode = int(d.mode())
     ctx.check(bool(mask[mode]), "C16/mode-is-a-masked-action", tags=tags, mode=mode, mask=mask)
     ctx.check(ref[mode] >= ref.max() - 1e-6, "C16/mode-not-the-most-likely-allowed-action", tags=tags, mode=mode)
@@ -79,7 +84,7 @@ def oracle_multicategorical(ctx: Ctx, case):
     refs = [_ref_masked_softmax(p, m) for p, m in zip(pieces, masks)]
     for nm, d in (("flat", d_flat), ("sequence", d_seq)):
         probs = np.asarray(d.probs, np.float64)
-        ctx.close(probs, np.concatenate(refs), "C16/masked-probabilities-not-renormalised-proportionally", tags=tags, rtol=2e-5, atol=1e-7, form=nm)
+        ctx.close(probs, np.concatenate(refs), "C16/masked-probabilities-not-renormalised-proportionally", tags=tags, rtol=_rtol(flat_logits), atol=1e-7, form=nm)
         mode = np.asarray(d.mode())
         ctx.check(all(bool(np.asarray(m, bool)[mode[j]]) for j, m in enumerate(masks)), "C16/mode-is-a-masked-action", tags=tags, mode=mode, form=nm)
         xs = np.asarray(_samples(d, jr.split(jr.key(case["key"]), NSAMP)))
@@ -101,7 +106,7 @@ def oracle_bernoulli(ctx: Ctx, case):
     tags = {"dist": "Bernoulli"}
     p1 = np.asarray(d.probs, np.float64)
     ctx.check(bool(np.all(p1[~mask] == 0)), "C16/masked-action-has-positive-probability", tags=tags, probs=p1)
-    ctx.close(p1[mask], special.expit(logits.astype(np.float64))[mask], "C16/unmasked-bits-changed", tags=tags, rtol=2e-5, atol=1e-7)
+    ctx.close(p1[mask], special.expit(logits.astype(np.float64))[mask], "C16/unmasked-bits-changed", tags=tags, rtol=_rtol(logits), atol=1e-7)
     mode = np.asarray(d.mode())
     ctx.check(bool(np.all(mode[~mask] == 0)), "C16/mode-is-a-masked-action", tags=tags, mode=mode)
     xs = np.asarray(_samples(d, jr.split(jr.key(case["key"]), NSAMP)))
